@@ -3,7 +3,7 @@
    root counting (a polynomial with at least as many distinct roots as coefficients is zero,
    coefficient by coefficient), coefficient-list arithmetic (padd, pscale, psub, plin_mul,
    pprod_lin) with their evaluation/length lemmas. *)
-From Coq Require Import List Arith Bool Lia Field Ring.
+From Coq Require Import List Arith Bool Lia Field Ring ZArith.
 Import ListNotations.
 Require Import V.base.Fld V.model.LinAlg V.model.Poly V.proofs.LinAlg_proofs.
 
@@ -295,3 +295,20 @@ Proof.
 Qed.
 
 End PolyProofs.
+
+(* ---- Examples (direct computations over Z_101) --------------------------------------------- *)
+
+Example ex_peval_horner : peval (Zp 101) [3;5;7;2]%Z 77%Z = peval_r (Zp 101) [3;5;7;2]%Z 77%Z.
+Proof. vm_compute. reflexivity. Qed.
+
+Example ex_pquot :   (* p = (X - 4)(2X^2 + 15X + 67) + p(4) over Z_101 *)
+  let K := Zp 101 in let p := [3;5;7;2]%Z in
+  length (pquot K p 4%Z) = 3%nat /\
+  peval_r K p 77%Z = fadd K (fmul K (fsub K 77 4)%Z (peval_r K (pquot K p 4%Z) 77%Z)) (peval_r K p 4%Z).
+Proof. vm_compute. split; reflexivity. Qed.
+
+Example ex_roots_nontrivial :   (* 3 distinct roots, 4 coefficients: non-zero polynomial exists, so the
+                                   bound  length p <= length roots  in poly_roots_all0 is tight *)
+  let K := Zp 101 in let p := pprod_lin K [4;9;1]%Z in
+  length p = 4%nat /\ map (peval_r K p) [4;9;1]%Z = [0;0;0]%Z /\ peval_r K p 2%Z <> 0%Z.
+Proof. vm_compute. repeat split; discriminate. Qed.
